@@ -537,7 +537,7 @@ func run(r *core.Run) int {
 		}
 	}
 	r.Set("histories", len(cases))
-	core.Parallel(len(cases), func(i int) {
+	r.Parallel(len(cases), func(i int) {
 		c := cases[i]
 		execute(r, c)
 		fetches, faults := 0, 0
